@@ -522,6 +522,41 @@ def load (s : St) (run : Nat) (tn task : Name) (alg sv v : Name × Ver) :
     | .error e => .error e
     | .ok c => .ok (s, some (k, c))
 
+/-! ### what is stored for whom (C06) -/
+
+/-- author identity: task, algorithm, state vector and value names, the last three with their
+    versions -/
+structure Ident where
+  task : Name
+  alg : Name × Ver
+  sv : Name × Ver
+  v : Name × Ver
+deriving DecidableEq, Repr
+
+/-- the full name registered under id `i`, read from the persisted dictionary -/
+def fullAt (d : List (Name × Nat)) (i : Nat) : Option Name := (d.find? (fun e => e.2 == i)).map (·.1)
+
+/-- name and version of row `i` of a versioned table (`dissect`) -/
+def nameVerAt (d : List (Name × Nat)) (i : Nat) : Option (Name × Ver) :=
+  match fullAt d i with
+  | none => none
+  | some f =>
+    match dissect f with
+    | some (_, n, some v) => some (n, v)
+    | _ => none
+
+/-- target and author identity a primary key stands for, read back from the tables -/
+def keyIdent (s : St) (k : Key) : Option (Name × Ident) :=
+  match fullAt s.target.dict k.tg, fullAt s.task.dict k.task, nameVerAt s.alg.dict k.alg,
+        nameVerAt s.state.dict k.sv, nameVerAt s.value.dict k.v with
+  | some tn, some tk, some a, some sv, some v => some (tn, ⟨tk, a, sv, v⟩)
+  | _, _, _, _, _ => none
+
+/-- `Stored s tn id run c`: the catalogue holds content `c` for author identity `id` on target `tn`
+    at run `run` -/
+def Stored (s : St) (tn : Name) (id : Ident) (run : Nat) (c : Nat) : Prop :=
+  ∃ e ∈ s.prime, e.1.run = run ∧ keyIdent s e.1 = some (tn, id) ∧ s.blobs.lookup e.2 = some c
+
 /-! ### histories -/
 
 /-- the state-changing operations of the property's quantifier (a version bump is a `store` /
@@ -558,5 +593,41 @@ def step (s : St) : Op → St
 
 /-- a history from the empty, closed catalogue -/
 def run (s : St) (ops : List Op) : St := ops.foldl step s
+
+/-! ### the abstract store of C06 -/
+
+/-- the specification: (target, identity) ↦ run ↦ content, and whether the store is open -/
+structure ASt where
+  opened : Bool
+  m : Name → Ident → Nat → Option Nat
+
+def ASt.init : ASt := ⟨false, fun _ _ _ => none⟩
+
+/-- what each operation means for the abstract store: a store writes one cell, a removal clears
+    the cells of the named author on that run (every version), nothing else changes anything -/
+def absStep (a : ASt) : Op → ASt
+  | .openDb => { a with opened := true }
+  | .closeDb => { a with opened := false }
+  | .store run tn task alg sv v _ content =>
+    if a.opened then
+      { a with m := fun tn' id' run' =>
+          if tn' = tn ∧ id' = ⟨task, alg, sv, v⟩ ∧ run' = run then some content else a.m tn' id' run' }
+    else a
+  | .remove rid tn task alg sv v =>
+    if a.opened then
+      { a with m := fun tn' id' run' =>
+          if run' = rid ∧ tn' = tn ∧ id'.task = task ∧ id'.alg.1 = alg ∧ id'.sv.1 = sv ∧ id'.v.1 = v
+          then none else a.m tn' id' run' }
+    else a
+  | _ => a
+
+def absRun (ops : List Op) : ASt := ops.foldl absStep ASt.init
+
+/-- what `load` must return for a cell map `m` of one (target, identity): the requested run when
+    present, else the content of the highest stored run, else nothing -/
+def LoadSpec (m : Nat → Option Nat) (run : Nat) (res : Option (Nat × Nat)) : Prop :=
+  match res with
+  | none => ∀ r, m r = none
+  | some (r, c) => m r = some c ∧ (r = run ∨ (m run = none ∧ ∀ r', m r' ≠ none → r' ≤ r))
 
 end DawgieVerif.Store
